@@ -47,3 +47,11 @@ def _lock_iter(self):
     return _CtxMgr(self)
 for _c in (_locks.Lock, _locks.Condition, _locks.Semaphore):
     if not hasattr(_c, '__iter__'): _c.__iter__ = _lock_iter
+
+# wpull/driver/process.py is a syntax error on Python >= 3.7 ("asyncio.async("); nothing the
+# properties anchor uses it, so a stub module stands in for it.
+import types as _types
+if 'wpull.driver.process' not in sys.modules:
+    _m = _types.ModuleType('wpull.driver.process')
+    _m.Process = type('Process', (), {})
+    sys.modules['wpull.driver.process'] = _m
